@@ -43,6 +43,7 @@ structure Names where
   pile : Nat → String
   fn : Nat → String
   why : Nat → String
+  gclass : Nat → String := fun c => s!"class#{c}"
 
 def showHeld (nm : Names) (h : List Nat) : String :=
   "[" ++ ", ".intercalate (h.map nm.lock) ++ "]"
@@ -66,12 +67,17 @@ def explore (nm : Names) (sig : Sig) : Stmt → AS → List String → R
       | some h => .ok [⟨.norm, ⟨h, { s.c with piles := setP s.c.piles q [] }⟩, p⟩]
       | none => .error ⟨s!"LockPile.UnlockAll of {nm.pile q} releases a lock that is not held", p⟩
   | .call g ren, s, p =>
-      match sig.get g with
-      | none => .error ⟨s!"call of {nm.fn g}, which has no summary", p⟩
-      | some (req, post) =>
-        match removeAll s.held (req.map (rn ren)) with
-        | none => .error ⟨s!"calls {nm.fn g} without holding what it requires on entry {showHeld nm (req.map (rn ren))} (held: {showHeld nm s.held})", p⟩
-        | some h => .ok [⟨.norm, { s with held := addAll h (post.map (rn ren)) }, p⟩]
+      match callA sig g ren s.held with
+      | .ok (_, h) => .ok [⟨.norm, { s with held := h }, p⟩]
+      | .error (.noSig _) => .error ⟨s!"call of {nm.fn g}, which has no summary", p⟩
+      | .error (.badRen _) => .error ⟨s!"call of {nm.fn g} renames a lock to one of another class", p⟩
+      | .error _ =>
+        let req := ((sig.get g).getD ([], [])).1
+        .error ⟨s!"calls {nm.fn g} without holding what it requires on entry {showHeld nm (req.map (rn ren))} (held: {showHeld nm s.held})", p⟩
+  | .need cs, s, p =>
+      if holdsClass s.held cs then .ok [⟨.norm, s, p⟩]
+      else .error ⟨s!"mutates state guarded by a lock of class {nm.gclass (cs.headD 0)} without holding it (held: {showHeld nm s.held})", p⟩
+  | .mark _ _, s, p => .ok [⟨.norm, s, p⟩]
   | .seq a b, s, p =>
       match explore nm sig a s p with
       | .error e => .error e
@@ -171,6 +177,13 @@ def explainEdges (nm : Names) (className : Nat → String) (nClasses : Nat) (cls
       let fns := prog.filter (fun fb => (edgesOfFn cls tbl sig fb.1 fb.2).contains e)
       s!"a lock of class {className e.2} is acquired (blocking) while one of class {className e.1} is held, which closes a cycle in the lock-class graph or nests two locks of one class without a LockPile; in: " ++
         ", ".intercalate (fns.map (fun fb => nm.fn fb.1)))
+
+/-- Functions that fail the transaction obligation `txOk`. -/
+def explainTx (nm : Names) (base : List Nat) (relT : AcqTbl) (prog : Prog) : List String :=
+  prog.filterMap (fun fb =>
+    if (txS base relT false fb.2 ⟨[], []⟩).2 then
+      some s!"{nm.fn fb.1}: a check and the act that depends on it (e.g. ByteRangeLockSet.Test … Set) are not in one critical section: the guarding lock is released between them, so the check is stale when the act happens"
+    else none)
 
 def showEdges (className : Nat → String) (es : Edges) : List String :=
   es.map (fun e => s!"{className e.1} -> {className e.2}")
